@@ -38,6 +38,7 @@ type verifC13H struct {
 	cnode   *Node
 	cclient *Client
 	csink   chan []byte
+	cpos    bool
 }
 
 func (h *verifC13H) flushFn(items []queue.Item) error {
@@ -302,7 +303,7 @@ func (h *verifC13H) cstop() {
 // creset: a real Node with a channel batch config and a real Client subscribed to "ch" with
 // PushJoinLeave; publications, joins and leaves then travel hub -> client -> perChannelWriter ->
 // connection writer -> transport.
-func (h *verifC13H) creset(delayMs, size, latest int) string {
+func (h *verifC13H) creset(delayMs, size, latest, pos int) string {
 	h.cstop()
 	cfg := ChannelBatchConfig{MaxSize: int64(size), MaxDelay: time.Duration(delayMs) * time.Millisecond, FlushLatestPublication: latest != 0}
 	node, err := New(Config{
@@ -315,13 +316,14 @@ func (h *verifC13H) creset(delayMs, size, latest int) string {
 	}
 	node.OnConnect(func(client *Client) {
 		client.OnSubscribe(func(e SubscribeEvent, cb SubscribeCallback) {
-			cb(SubscribeReply{Options: SubscribeOptions{PushJoinLeave: true}}, nil)
+			cb(SubscribeReply{Options: SubscribeOptions{PushJoinLeave: true, EnablePositioning: pos != 0}}, nil)
 		})
 	})
 	if err := node.Run(); err != nil {
 		return "creset-failed"
 	}
 	h.cnode = node
+	h.cpos = pos != 0
 	ctx, cancelFn := context.WithCancel(context.Background())
 	tt := newTestTransport(cancelFn)
 	tt.setProtocolVersion(ProtocolVersion2)
@@ -384,7 +386,8 @@ func (h *verifC13H) step(ws []string) (res string) {
 		if !ok1 || !ok2 || !ok3 || (d == 0 && sz == 0) {
 			return "bad-op"
 		}
-		return h.creset(d, sz, l)
+		pos, _ := verifC13Int(ws, "pos")
+		return h.creset(d, sz, l, pos)
 	case "cadd":
 		if h.cnode == nil {
 			return "bad-op"
@@ -396,7 +399,18 @@ func (h *verifC13H) step(ws []string) (res string) {
 		}
 		switch f {
 		case "p":
-			_, _ = h.cnode.Publish("ch", []byte(`{"vid":`+strconv.Itoa(id)+`}`))
+			// keyed publication; for a positioned subscriber it also carries an offset (history on), so
+			// it takes the position-tracking write path
+			var opts []PublishOption
+			if key, ok := verifC13Int(ws, "key"); ok && key != 0 {
+				opts = append(opts, WithKey("k"+strconv.Itoa(key)))
+			}
+			if h.cpos {
+				opts = append(opts, WithHistory(1000, time.Minute))
+			}
+			if _, err := h.cnode.Publish("ch", []byte(`{"vid":`+strconv.Itoa(id)+`}`), opts...); err != nil {
+				return "publish-failed"
+			}
 		case "j":
 			_ = h.cnode.publishJoin("ch", &ClientInfo{ClientID: "id" + strconv.Itoa(id), UserID: "x"})
 		case "l":
